@@ -15,27 +15,41 @@ import (
 	"log/slog"
 	"math/big"
 	"math/rand"
+	"net/http"
+	"net/http/httptest"
 	"strings"
 	"sync"
 	"testing"
 
 	"github.com/ethereum/go-ethereum"
 	"github.com/ethereum/go-ethereum/common"
+	"github.com/ethereum/go-ethereum/common/hexutil"
 	"github.com/ethereum/go-ethereum/core/types"
 	"github.com/ethereum/go-ethereum/crypto"
+	"github.com/ethereum/go-ethereum/ethclient"
 	"github.com/ethereum/go-ethereum/rpc"
 )
 
+// c10In is one CancelTx call (flat form) or, when Steps is set, a session of several operations on
+// ONE client (state kept by the client or by the transport adapter between calls is then in play).
 type c10In struct {
-	Kind    string `json:"kind"`  // legacy | access | dynamic
-	Nonce   uint64 `json:"nonce"` // nonce of the original
-	Tip     string `json:"tip"`   // decimal; dynamic only
-	Fee     string `json:"fee"`   // decimal; gas price for legacy/access, fee cap for dynamic
-	Foreign bool   `json:"foreign"`
-	State   string `json:"state"` // pending | mined | notfound | error | nil | nilpending
-	Sug     string `json:"sug"`   // suggested tip: decimal or "err"
-	Sign    bool   `json:"sign"`
-	Sub     bool   `json:"sub"`
+	T       string    `json:"t,omitempty"`     // transport: "" = scripted EVM implementation; "wire" = New(ks, WrapEthClient(ethclient over JSON-RPC/HTTP))
+	Kind    string    `json:"kind,omitempty"`  // legacy | access | dynamic
+	Nonce   uint64    `json:"nonce,omitempty"` // nonce of the original
+	Tip     string    `json:"tip,omitempty"`   // decimal; dynamic only
+	Fee     string    `json:"fee,omitempty"`   // decimal; gas price for legacy/access, fee cap for dynamic
+	Foreign bool      `json:"foreign,omitempty"`
+	State   string    `json:"state,omitempty"` // pending | mined | notfound | error | nil | nilpending
+	Sug     string    `json:"sug,omitempty"`   // flat form: the node's suggested tip: decimal or "err"
+	Sign    bool      `json:"sign,omitempty"`
+	Sub     bool      `json:"sub,omitempty"`
+	Steps   []c10Step `json:"steps,omitempty"`
+}
+
+type c10Step struct {
+	K   string `json:"k"`             // tip: the node's suggestion is Sug from now on | cancel: CancelTx of target C | send: a plain Send
+	Sug string `json:"sug,omitempty"` // decimal or "err"
+	C   *c10In `json:"c,omitempty"`
 }
 
 type c10Tx struct {
@@ -51,6 +65,8 @@ type c10Tx struct {
 }
 
 type c10Obs struct {
+	At         int    `json:"at"`  // index of the cancel step inside the session
+	Sug        string `json:"sug"` // what the node answers to a tip query at the moment of this CancelTx
 	Sub        *c10Tx `json:"sub"`
 	Acc        bool   `json:"acc"`
 	OK         bool   `json:"ok"`
@@ -71,7 +87,10 @@ const c10SuggestedPrice = 777
 type c10Node struct {
 	mu         sync.Mutex
 	chainID    *big.Int
-	in         c10In
+	in         c10In  // the CancelTx under way
+	mode       string // cancel | send
+	sug        string // current answer to a tip query
+	sends      uint64 // plain transactions accepted so far (pending nonce of the account)
 	orig       *types.Transaction
 	sub        *c10Tx
 	acc        bool
@@ -81,7 +100,9 @@ type c10Node struct {
 
 type c10Batcher struct{}
 
-func (c10Batcher) BatchCallContext(ctx context.Context, b []rpc.BatchElem) error { return errC10Injected }
+func (c10Batcher) BatchCallContext(ctx context.Context, b []rpc.BatchElem) error {
+	return errC10Injected
+}
 
 func (n *c10Node) Batcher() Batcher { return c10Batcher{} }
 func (n *c10Node) NetworkID(ctx context.Context) (*big.Int, error) {
@@ -89,7 +110,9 @@ func (n *c10Node) NetworkID(ctx context.Context) (*big.Int, error) {
 }
 func (n *c10Node) BlockNumber(ctx context.Context) (uint64, error) { return 0, errC10Injected }
 func (n *c10Node) PendingNonceAt(ctx context.Context, account common.Address) (uint64, error) {
-	return 0, errC10Injected
+	n.mu.Lock()
+	defer n.mu.Unlock()
+	return n.sends, nil
 }
 func (n *c10Node) NonceAt(ctx context.Context, account common.Address, blockNumber *big.Int) (uint64, error) {
 	return 0, errC10Injected
@@ -100,25 +123,35 @@ func (n *c10Node) SuggestGasPrice(ctx context.Context) (*big.Int, error) {
 	n.priceAsked = true
 	return big.NewInt(c10SuggestedPrice), nil
 }
-func (n *c10Node) SuggestGasTipCap(ctx context.Context) (*big.Int, error) {
-	n.mu.Lock()
-	defer n.mu.Unlock()
-	if n.in.Sug == "err" {
+func (n *c10Node) tipLocked() (*big.Int, error) {
+	if n.sug == "err" {
 		return nil, errC10Injected
 	}
-	v, ok := new(big.Int).SetString(n.in.Sug, 10)
+	v, ok := new(big.Int).SetString(n.sug, 10)
 	if !ok {
-		n.problems = append(n.problems, "bad suggested tip "+n.in.Sug)
+		n.problems = append(n.problems, "bad suggested tip "+n.sug)
 		return nil, errC10Injected
 	}
 	return v, nil
 }
+func (n *c10Node) SuggestGasTipCap(ctx context.Context) (*big.Int, error) {
+	n.mu.Lock()
+	defer n.mu.Unlock()
+	return n.tipLocked()
+}
 func (n *c10Node) EstimateGas(ctx context.Context, call ethereum.CallMsg) (uint64, error) {
-	return 0, errC10Injected
+	return 30000, nil
 }
 func (n *c10Node) SendTransaction(ctx context.Context, tx *types.Transaction) error {
 	n.mu.Lock()
 	defer n.mu.Unlock()
+	return n.submitLocked(tx)
+}
+func (n *c10Node) submitLocked(tx *types.Transaction) error {
+	if n.mode == "send" {
+		n.sends++
+		return nil
+	}
 	if n.sub != nil {
 		n.problems = append(n.problems, "two transactions submitted by one CancelTx")
 	}
@@ -172,6 +205,108 @@ func (n *c10Node) TransactionByHash(ctx context.Context, txHash common.Hash) (*t
 	return nil, false, errC10Injected
 }
 
+// ---- the same node behind JSON-RPC over HTTP --------------------------------------------------
+
+type c10RPCReq struct {
+	ID     json.RawMessage   `json:"id"`
+	Method string            `json:"method"`
+	Params []json.RawMessage `json:"params"`
+}
+
+func (n *c10Node) answerRPC(r c10RPCReq) (interface{}, error) {
+	n.mu.Lock()
+	defer n.mu.Unlock()
+	switch r.Method {
+	case "net_version":
+		return n.chainID.String(), nil
+	case "eth_chainId":
+		return hexutil.EncodeBig(n.chainID), nil
+	case "eth_getTransactionCount":
+		return hexutil.EncodeUint64(n.sends), nil
+	case "eth_estimateGas":
+		return hexutil.EncodeUint64(30000), nil
+	case "eth_maxPriorityFeePerGas":
+		v, err := n.tipLocked()
+		if err != nil {
+			return nil, err
+		}
+		return hexutil.EncodeBig(v), nil
+	case "eth_gasPrice":
+		n.priceAsked = true
+		return hexutil.EncodeUint64(c10SuggestedPrice), nil
+	case "eth_sendRawTransaction":
+		var raw hexutil.Bytes
+		if len(r.Params) < 1 || json.Unmarshal(r.Params[0], &raw) != nil {
+			n.problems = append(n.problems, "eth_sendRawTransaction: bad parameters")
+			return nil, errC10Injected
+		}
+		tx := new(types.Transaction)
+		if err := tx.UnmarshalBinary(raw); err != nil {
+			n.problems = append(n.problems, "eth_sendRawTransaction: undecodable transaction: "+err.Error())
+			return nil, errC10Injected
+		}
+		if err := n.submitLocked(tx); err != nil {
+			return nil, err
+		}
+		return tx.Hash().Hex(), nil
+	case "eth_getTransactionByHash":
+		switch n.in.State {
+		case "pending", "mined":
+			b, err := n.orig.MarshalJSON()
+			if err != nil {
+				n.problems = append(n.problems, "cannot encode original: "+err.Error())
+				return nil, errC10Injected
+			}
+			m := map[string]interface{}{}
+			_ = json.Unmarshal(b, &m)
+			m["from"] = "0x00000000000000000000000000000000000000f1"
+			if n.in.State == "mined" {
+				m["blockNumber"] = "0x5"
+				m["blockHash"] = "0x00000000000000000000000000000000000000000000000000000000000000b5"
+				m["transactionIndex"] = "0x0"
+			} else {
+				m["blockNumber"] = nil
+				m["blockHash"] = nil
+				m["transactionIndex"] = nil
+			}
+			return m, nil
+		case "notfound":
+			return nil, nil // JSON null
+		default:
+			return nil, errC10Injected
+		}
+	}
+	return nil, errC10Injected // eth_blockNumber, receipts, ...: not available
+}
+
+func (n *c10Node) ServeHTTP(w http.ResponseWriter, req *http.Request) {
+	body, _ := io.ReadAll(req.Body)
+	reply := func(r c10RPCReq) map[string]interface{} {
+		res, err := n.answerRPC(r)
+		out := map[string]interface{}{"jsonrpc": "2.0", "id": r.ID}
+		if err != nil {
+			out["error"] = map[string]interface{}{"code": -32000, "message": err.Error()}
+		} else {
+			out["result"] = res
+		}
+		return out
+	}
+	w.Header().Set("Content-Type", "application/json")
+	if strings.HasPrefix(strings.TrimSpace(string(body)), "[") {
+		var rs []c10RPCReq
+		_ = json.Unmarshal(body, &rs)
+		outs := make([]map[string]interface{}, 0, len(rs))
+		for _, r := range rs {
+			outs = append(outs, reply(r))
+		}
+		_ = json.NewEncoder(w).Encode(outs)
+		return
+	}
+	var r c10RPCReq
+	_ = json.Unmarshal(body, &r)
+	_ = json.NewEncoder(w).Encode(reply(r))
+}
+
 type c10Signer struct {
 	key  *ecdsa.PrivateKey
 	node *c10Node
@@ -180,7 +315,7 @@ type c10Signer struct {
 func (k *c10Signer) SignHash(data []byte) ([]byte, error) { return crypto.Sign(data, k.key) }
 func (k *c10Signer) SignTx(tx *types.Transaction, chainID *big.Int) (*types.Transaction, error) {
 	k.node.mu.Lock()
-	ok := k.node.in.Sign
+	ok := k.node.in.Sign || k.node.mode == "send"
 	k.node.mu.Unlock()
 	if !ok {
 		return nil, errC10Injected
@@ -200,50 +335,115 @@ func c10Big(s string) *big.Int {
 	return v
 }
 
-func c10Run(t *testing.T, in c10In) (c10Obs, []string) {
+// c10Cancel is one CancelTx of a session: the effective flat input (Sug = the node's answer at that
+// moment) and what was observed.
+type c10Cancel struct {
+	in  c10In
+	obs c10Obs
+}
+
+func c10Steps(in c10In) []c10Step {
+	if len(in.Steps) > 0 {
+		return in.Steps
+	}
+	flat := in
+	return []c10Step{{K: "tip", Sug: in.Sug}, {K: "cancel", C: &flat}}
+}
+
+func c10Run(t *testing.T, in c10In) ([]c10Cancel, []string) {
 	key, err := crypto.ToECDSA(common.FromHex("0x4c0883a69102937d6231471b5dbb6204fe5129617082792ae468d01a3f362318"))
 	if err != nil {
 		t.Fatal(err)
 	}
-	node := &c10Node{chainID: big.NewInt(31337), in: in}
+	wire := in.T == "wire"
+	node := &c10Node{chainID: big.NewInt(31337), sug: "err", mode: "cancel"}
 	ks := &c10Signer{key: key, node: node}
-	origChain := big.NewInt(31337)
-	if in.Foreign {
-		origChain = big.NewInt(5)
+	var backend EVM = node
+	if wire { // assembled as pkg/node does it
+		srv := httptest.NewServer(node)
+		defer srv.Close()
+		rc, err := rpc.DialContext(context.Background(), srv.URL)
+		if err != nil {
+			t.Fatalf("c10: dial: %v", err)
+		}
+		defer rc.Close()
+		backend = WrapEthClient(ethclient.NewClient(rc))
 	}
-	other := common.HexToAddress("0x00000000000000000000000000000000000000c1")
-	switch in.Kind {
-	case "legacy":
-		node.orig = types.NewTx(&types.LegacyTx{Nonce: in.Nonce, GasPrice: c10Big(in.Fee), Gas: 60000, To: &other,
-			Value: big.NewInt(5), Data: []byte{0xde, 0xad}})
-	case "access":
-		node.orig = types.NewTx(&types.AccessListTx{ChainID: origChain, Nonce: in.Nonce, GasPrice: c10Big(in.Fee), Gas: 60000,
-			To: &other, Value: big.NewInt(5), Data: []byte{0xde, 0xad}})
-	default:
-		node.orig = types.NewTx(&types.DynamicFeeTx{ChainID: origChain, Nonce: in.Nonce, GasTipCap: c10Big(in.Tip),
-			GasFeeCap: c10Big(in.Fee), Gas: 60000, To: &other, Value: big.NewInt(5), Data: []byte{0xde, 0xad}})
-	}
-	client, err := New(ks, node, slog.New(slog.NewTextHandler(io.Discard, nil)))
+	client, err := New(ks, backend, slog.New(slog.NewTextHandler(io.Discard, nil)))
 	if err != nil {
 		t.Fatalf("c10: New: %v", err)
 	}
 	defer func() { _ = client.Close() }()
-	obs := c10Obs{OrigPrice: node.orig.GasPrice().String(), OrigFee: node.orig.GasFeeCap().String(),
-		OrigTip: node.orig.GasTipCap().String(), Owner: common.Bytes2Hex(ks.GetAddress().Bytes()), ChainID: node.chainID.String()}
-	func() {
-		defer func() {
-			if r := recover(); r != nil {
-				obs.Panic = true
+	owner := ks.GetAddress()
+	other := common.HexToAddress("0x00000000000000000000000000000000000000c1")
+	var out []c10Cancel
+	for at, st := range c10Steps(in) {
+		switch st.K {
+		case "tip":
+			node.mu.Lock()
+			node.sug = st.Sug
+			node.mu.Unlock()
+		case "send":
+			node.mu.Lock()
+			node.mode = "send"
+			node.mu.Unlock()
+			_, _ = client.Send(context.Background(), &TxRequest{To: &other, CallData: []byte{7}, Value: big.NewInt(0),
+				GasLimit: 50000, GasPrice: big.NewInt(3000000000)})
+			node.mu.Lock()
+			node.mode = "cancel"
+			node.mu.Unlock()
+		case "cancel":
+			if st.C == nil {
+				continue
 			}
-		}()
-		_, err := client.CancelTx(context.Background(), node.orig.Hash())
-		obs.OK = err == nil
-		obs.NotFound = err != nil && errors.Is(err, ethereum.NotFound)
-	}()
-	node.mu.Lock()
-	obs.Sub, obs.Acc, obs.PriceAsked = node.sub, node.acc, node.priceAsked
-	node.mu.Unlock()
-	return obs, node.problems
+			c := *st.C
+			c.Steps = nil
+			origChain := big.NewInt(31337)
+			if c.Foreign {
+				origChain = big.NewInt(5)
+			}
+			var orig *types.Transaction
+			switch c.Kind {
+			case "legacy":
+				orig = types.NewTx(&types.LegacyTx{Nonce: c.Nonce, GasPrice: c10Big(c.Fee), Gas: 60000, To: &other,
+					Value: big.NewInt(5), Data: []byte{0xde, 0xad}})
+			case "access":
+				orig = types.NewTx(&types.AccessListTx{ChainID: origChain, Nonce: c.Nonce, GasPrice: c10Big(c.Fee), Gas: 60000,
+					To: &other, Value: big.NewInt(5), Data: []byte{0xde, 0xad}})
+			default:
+				orig = types.NewTx(&types.DynamicFeeTx{ChainID: origChain, Nonce: c.Nonce, GasTipCap: c10Big(c.Tip),
+					GasFeeCap: c10Big(c.Fee), Gas: 60000, To: &other, Value: big.NewInt(5), Data: []byte{0xde, 0xad}})
+			}
+			if wire { // a node only serves signed transactions
+				signed, err := types.SignTx(orig, types.LatestSignerForChainID(origChain), key)
+				if err != nil {
+					t.Fatalf("c10: signing the original: %v", err)
+				}
+				orig = signed
+			}
+			node.mu.Lock()
+			c.Sug = node.sug
+			node.in, node.orig, node.sub, node.acc, node.priceAsked, node.mode = c, orig, nil, false, false, "cancel"
+			node.mu.Unlock()
+			obs := c10Obs{At: at, Sug: c.Sug, OrigPrice: orig.GasPrice().String(), OrigFee: orig.GasFeeCap().String(),
+				OrigTip: orig.GasTipCap().String(), Owner: common.Bytes2Hex(owner.Bytes()), ChainID: node.chainID.String()}
+			func() {
+				defer func() {
+					if r := recover(); r != nil {
+						obs.Panic = true
+					}
+				}()
+				_, err := client.CancelTx(context.Background(), orig.Hash())
+				obs.OK = err == nil
+				obs.NotFound = err != nil && errors.Is(err, ethereum.NotFound)
+			}()
+			node.mu.Lock()
+			obs.Sub, obs.Acc, obs.PriceAsked = node.sub, node.acc, node.priceAsked
+			node.mu.Unlock()
+			out = append(out, c10Cancel{in: c, obs: obs})
+		}
+	}
+	return out, node.problems
 }
 
 // ---- Coq term ------------------------------------------------------------------------------
@@ -320,14 +520,18 @@ func TestVerifC10(t *testing.T) {
 	e := vfOpen(t, 100)
 	defer e.Close()
 	run := func(class string, in c10In) {
-		obs, problems := c10Run(t, in)
+		cancels, problems := c10Run(t, in)
 		if len(problems) > 0 {
 			t.Errorf("c10 driver problem in class %s: %s (input %+v)", class, strings.Join(problems, "; "), in)
 		}
-		if obs.OrigPrice != obs.OrigFee { // premise of C10_fee_exact, a fact about the library
-			t.Errorf("c10: GasPrice() != GasFeeCap() for %+v", in)
+		for _, c := range cancels {
+			c := c
+			if c.obs.OrigPrice != c.obs.OrigFee { // premise of C10_fee_exact, a fact about the library
+				t.Errorf("c10: GasPrice() != GasFeeCap() for %+v", c.in)
+			}
+			// the input recorded is the whole session (a replay must rebuild the client's history)
+			e.Emit(class, in, c.obs, func(id int) string { return c10Coq(id, c.in, c.obs) })
 		}
-		e.Emit(class, in, obs, func(id int) string { return c10Coq(id, in, obs) })
 	}
 	for _, raw := range e.Replay {
 		var in c10In
@@ -388,5 +592,85 @@ func TestVerifC10(t *testing.T) {
 			in.Sub = false
 		}
 		run("random", in)
+	}
+	// ---- the production assembly: New over WrapEthClient(ethclient) over JSON-RPC/HTTP -------------
+	wireStates := []string{"pending", "mined", "notfound", "error"}
+	i := 0
+	for _, fee := range caps {
+		for _, sug := range sugs {
+			run("wire-crossed-legacy", c10In{T: "wire", Kind: "legacy", Nonce: 7, Fee: fee, State: "pending", Sug: sug, Sign: true, Sub: true})
+			for _, tip := range caps {
+				if i++; i%9 == 0 || e.Tier == "thorough" {
+					run("wire-crossed-dynamic", c10In{T: "wire", Kind: "dynamic", Nonce: 7, Tip: tip, Fee: fee, State: "pending", Sug: sug, Sign: true, Sub: true})
+				}
+			}
+		}
+	}
+	for _, st := range wireStates {
+		for _, k := range kinds {
+			for _, sug := range []string{"err", "11"} {
+				for _, f := range [][2]bool{{true, true}, {false, true}, {true, false}} {
+					run("wire-state-"+st, c10In{T: "wire", Kind: k, Nonce: 3, Tip: "10", Fee: "99", Foreign: k == "access", State: st, Sug: sug,
+						Sign: f[0], Sub: f[1]})
+				}
+			}
+		}
+	}
+	// sessions on one client: an earlier operation, then the node's suggestion changes, then CancelTx.
+	// The replacement must follow what the node suggests at that moment; a failing query must refuse.
+	gwei := "1000000000"
+	target := func(kind, tip, fee string, n uint64) *c10In {
+		return &c10In{Kind: kind, Nonce: n, Tip: tip, Fee: fee, State: "pending", Sign: true, Sub: true}
+	}
+	changes := [][2]string{{gwei, "50000000000"}, {"1", "2"}, {"0", caps[7]}, {"10", "11"}, {gwei, "err"}, {"err", gwei},
+		{"50000000000", gwei}, {"11", "0"}, {gwei, gwei}, {"99", caps[8]}}
+	for _, tr := range []string{"", "wire"} {
+		cls := "session"
+		if tr == "wire" {
+			cls = "wire-session"
+		}
+		for _, ch := range changes {
+			for _, warm := range []string{"cancel", "send"} {
+				for _, kind := range []string{"legacy", "dynamic"} {
+					steps := []c10Step{{K: "tip", Sug: ch[0]}}
+					if warm == "send" {
+						steps = append(steps, c10Step{K: "send"})
+					} else {
+						steps = append(steps, c10Step{K: "cancel", C: target(kind, "5", "20", 1)})
+					}
+					steps = append(steps, c10Step{K: "tip", Sug: ch[1]},
+						c10Step{K: "cancel", C: target(kind, gwei, "2000000000", 2)},
+						c10Step{K: "tip", Sug: ch[0]},
+						c10Step{K: "cancel", C: target(kind, "0", "1", 3)})
+					run(cls, c10In{T: tr, Steps: steps})
+				}
+			}
+		}
+		for j := 0; j < 10+e.N/20; j++ { // random sessions
+			var steps []c10Step
+			n := 2 + e.rng.Intn(5)
+			for k := 0; k < n; k++ {
+				sug := c10RandAmount(e.rng)
+				if e.rng.Intn(5) == 0 {
+					sug = "err"
+				}
+				steps = append(steps, c10Step{K: "tip", Sug: sug})
+				if e.rng.Intn(4) == 0 {
+					steps = append(steps, c10Step{K: "send"})
+				}
+				c := target(kinds[e.rng.Intn(3)], c10RandAmount(e.rng), c10RandAmount(e.rng), uint64(k))
+				if e.rng.Intn(6) == 0 {
+					c.State = wireStates[e.rng.Intn(len(wireStates))]
+				}
+				if e.rng.Intn(8) == 0 {
+					c.Sign = false
+				}
+				if e.rng.Intn(8) == 0 {
+					c.Sub = false
+				}
+				steps = append(steps, c10Step{K: "cancel", C: c})
+			}
+			run(cls+"-random", c10In{T: tr, Steps: steps})
+		}
 	}
 }
